@@ -105,3 +105,77 @@ impl Dispatcher {
     pub open spec fn setup_trace(&self) -> Seq<int> { self.inner.setup_trace() + setup_trace_of(self.thread_local@) }
     pub open spec fn dispose_trace(&self) -> Seq<int> { self.inner.dispose_trace() + dispose_trace_of(self.thread_local@) }
 }
+pub proof fn lemma_boxes_bumped_trans(c: Seq<SysBox>, b: Seq<SysBox>, a: Seq<SysBox>, j: nat, k: nat)
+    requires boxes_bumped(c, b, j), boxes_bumped(b, a, k)
+    ensures boxes_bumped(c, a, j + k)
+{
+    assert forall|p: int| 0 <= p < a.len() implies (#[trigger] c[p]).ident() == a[p].ident() && c[p].runs() == a[p].runs() + (j + k) by {
+        assert(b[p].ident() == a[p].ident());
+    }
+}
+pub proof fn lemma_groups_bumped_trans(c: GroupsT, b: GroupsT, a: GroupsT, j: nat, k: nat)
+    requires groups_bumped(c, b, j), groups_bumped(b, a, k)
+    ensures groups_bumped(c, a, j + k)
+{
+    assert forall|g: int| 0 <= g < a.len() implies boxes_bumped(#[trigger] c[g]@, a[g]@, j + k) by {
+        assert(boxes_bumped(b[g]@, a[g]@, k));
+        lemma_boxes_bumped_trans(c[g]@, b[g]@, a[g]@, j, k);
+    }
+}
+pub proof fn lemma_stages_bumped_trans(c: Seq<Stage>, b: Seq<Stage>, a: Seq<Stage>, j: nat, k: nat)
+    requires stages_bumped(c, b, j), stages_bumped(b, a, k)
+    ensures stages_bumped(c, a, j + k)
+{
+    assert forall|s: int| 0 <= s < a.len() implies groups_bumped(#[trigger] c[s].groups@, a[s].groups@, j + k) by {
+        assert(groups_bumped(b[s].groups@, a[s].groups@, k));
+        lemma_groups_bumped_trans(c[s].groups@, b[s].groups@, a[s].groups@, j, k);
+    }
+}
+// hook traces depend on identities only
+pub proof fn lemma_boxes_bumped_traces(post: Seq<SysBox>, pre: Seq<SysBox>, k: nat)
+    requires boxes_bumped(post, pre, k)
+    ensures setup_trace_of(post) == setup_trace_of(pre), dispose_trace_of(post) == dispose_trace_of(pre)
+    decreases pre.len()
+{
+    if pre.len() > 0 {
+        assert(boxes_bumped(post.drop_last(), pre.drop_last(), k)) by {
+            assert forall|p: int| 0 <= p < pre.drop_last().len() implies (#[trigger] post.drop_last()[p]).ident() == pre.drop_last()[p].ident() && post.drop_last()[p].runs() == pre.drop_last()[p].runs() + k by {
+                assert(post[p].ident() == pre[p].ident());
+            }
+        }
+        lemma_boxes_bumped_traces(post.drop_last(), pre.drop_last(), k);
+        assert(post[pre.len() - 1].ident() == pre[pre.len() - 1].ident());
+    }
+}
+pub proof fn lemma_groups_bumped_traces(post: GroupsT, pre: GroupsT, k: nat)
+    requires groups_bumped(post, pre, k)
+    ensures groups_setup_trace(post) == groups_setup_trace(pre), groups_dispose_trace(post) == groups_dispose_trace(pre)
+    decreases pre.len()
+{
+    if pre.len() > 0 {
+        assert(groups_bumped(post.drop_last(), pre.drop_last(), k)) by {
+            assert forall|g: int| 0 <= g < pre.drop_last().len() implies boxes_bumped(#[trigger] post.drop_last()[g]@, pre.drop_last()[g]@, k) by {
+                assert(boxes_bumped(post[g]@, pre[g]@, k));
+            }
+        }
+        lemma_groups_bumped_traces(post.drop_last(), pre.drop_last(), k);
+        assert(boxes_bumped(post[pre.len() - 1]@, pre[pre.len() - 1]@, k));
+        lemma_boxes_bumped_traces(post.last()@, pre.last()@, k);
+    }
+}
+pub proof fn lemma_stages_bumped_traces(post: Seq<Stage>, pre: Seq<Stage>, k: nat)
+    requires stages_bumped(post, pre, k)
+    ensures stages_setup_trace(post) == stages_setup_trace(pre), stages_dispose_trace(post) == stages_dispose_trace(pre)
+    decreases pre.len()
+{
+    if pre.len() > 0 {
+        assert(stages_bumped(post.drop_last(), pre.drop_last(), k)) by {
+            assert forall|s: int| 0 <= s < pre.drop_last().len() implies groups_bumped(#[trigger] post.drop_last()[s].groups@, pre.drop_last()[s].groups@, k) by {
+                assert(groups_bumped(post[s].groups@, pre[s].groups@, k));
+            }
+        }
+        lemma_stages_bumped_traces(post.drop_last(), pre.drop_last(), k);
+        assert(groups_bumped(post[pre.len() - 1].groups@, pre[pre.len() - 1].groups@, k));
+        lemma_groups_bumped_traces(post.last().groups@, pre.last().groups@, k);
+    }
+}
